@@ -81,3 +81,18 @@ Definition m_bin (ids : list N) (bins : Z) (obs : res (list (list N))) : bool :=
       match bin_split rows bins with Ok c => chunks_eq c chunks | Raise _ => false end
   | Raise e => match bin_split ids bins with Raise e' => exn_eqb e e' | Ok _ => false end
   end.
+
+(* ---------- sort keys with UNCHECKED cells (a column mapped with `@` / functional.map_ and used as `by` without
+   being assigned): the cells are classified as they are (NumPy scalars, bools, numeric-looking text ...), their
+   keys are what the regenerated _sortable_regular builds for them, sorted() is the stable sort over py_lt.
+   rids = the row ids in the order the implementation produced.  true when a cell leaves the model. *)
+Definition x_sortedrowid (cells : list pyv) (ids : list N) : option (list N) :=
+  match all_some (map m_key cells) with
+  | Some ks => if Nat.eqb (List.length ks) (List.length ids)
+               then Some (map snd (isort (fst_lt py_lt) (combine ks ids))) else None
+  | None => None
+  end.
+Definition m_order_x (cells : list pyv) (ids rids : list N) : bool :=
+  match x_sortedrowid cells ids with Some sr => list_eqN sr rids | None => true end.
+Definition m_order_x_in_model (cells : list pyv) (ids : list N) : bool :=
+  match x_sortedrowid cells ids with Some _ => true | None => false end.
